@@ -171,7 +171,8 @@ def to_triples(e, properties=True, lnk=True):
             if lnk and node.lnk:
                 triples.append((nid, ':lnk', '"{}"'.format(str(node.lnk))))
             if node.carg:
-                triples.append((nid, ':carg', '"{}"'.format(node.carg)))
+                triples.append(
+                    (nid, ':carg', '"{}"'.format(_escape(node.carg))))
             if node.type is not None:
                 triples.append((nid, ':type', node.type))
             if properties:
@@ -206,7 +207,7 @@ def from_triples(triples):
             nd[src]['lnk'] = Lnk(tgt.strip('"'))
         elif rel == 'carg':
             if (tgt[0], tgt[-1]) == ('"', '"'):
-                tgt = tgt[1:-1]
+                tgt = _unescape(tgt[1:-1])
             nd[src]['carg'] = tgt
         elif rel == 'type':
             nd[src]['type'] = tgt
@@ -224,3 +225,22 @@ def from_triples(triples):
              for nid in nids]
     top = nids[0] if nids else None
     return EDS(top=top, nodes=nodes)
+
+
+# Character Escaping (as in SimpleMRS)
+
+def _escape(s: str) -> str:
+    return s.replace('\\', '\\\\').replace('"', '\\"')
+
+
+def _unescape(s: str) -> str:
+    cs = []
+    i = 0
+    while i < len(s):
+        if s[i] == '\\' and (i + 1) < len(s):
+            cs.append(s[i+1])
+            i += 2
+        else:
+            cs.append(s[i])
+            i += 1
+    return "".join(cs)
